@@ -56,7 +56,7 @@ func replay(c *vlib.Ctx, cs Case) {
 			c.T.Fatal(err)
 		}
 		fmt.Printf("origin: %s\n", cs.Origin)
-		r := checkArbitrary(in, true)
+		r := checkArbitrary(in, true, true)
 		fmt.Printf("outcome: %s\n", r.outcome)
 		fl = r.fl
 	default:
@@ -83,6 +83,15 @@ func TestCheck(t *testing.T) {
 			return
 		}
 		scope := map[string]any{}
+		// vlib keeps 5 artefacts per class; do not build more than a few reports per class.
+		var vmu sync.Mutex
+		vcount := map[string]int{}
+		report := func(class string) bool {
+			vmu.Lock()
+			defer vmu.Unlock()
+			vcount[class]++
+			return vcount[class] <= 8
+		}
 
 		// ---------- (a) round trip ----------
 		maxGroups := 2
@@ -100,7 +109,9 @@ func TestCheck(t *testing.T) {
 			c.Trans(3)
 			if fl != nil {
 				c.Outcome("a:" + fl.class)
-				c.Violation(fl.class, "edit "+pickNames(ps)+": "+fl.desc, Case{Part: "roundtrip", Picks: ps, What: pickNames(ps)})
+				if report(fl.class) {
+					c.Violation(fl.class, "edit "+pickNames(ps)+": "+fl.desc, Case{Part: "roundtrip", Picks: ps, What: pickNames(ps)})
+				}
 			} else {
 				c.Outcome("a:roundtrip-equal")
 			}
@@ -160,7 +171,9 @@ func TestCheck(t *testing.T) {
 				c.Trans(steps)
 				if fl != nil {
 					c.Outcome("b:" + fl.class)
-					c.Violation(fl.class, fmt.Sprintf("base [%s] sequence [%s]: %s", seqString(p.base), seqString(seqs[i]), fl.desc), Case{Part: "sequence", Seq: &cs})
+					if report(fl.class) {
+						c.Violation(fl.class, fmt.Sprintf("base [%s] sequence [%s]: %s", seqString(p.base), seqString(seqs[i]), fl.desc), Case{Part: "sequence", Seq: &cs})
+					}
 				} else {
 					c.Outcome("b:three-paths-and-model-agree")
 					c.State(vlib.Hash("b", dump))
@@ -195,18 +208,20 @@ func TestCheck(t *testing.T) {
 			}
 			c.NoteAdd("arbitrary_inputs_accepted_nonempty", l.accepts)
 		}
-		one := func(l *local, in []byte, origin func() string) {
-			r := checkArbitrary(in, false)
+		one := func(l *local, in []byte, deep bool, origin func() string) {
+			r := checkArbitrary(in, deep, false)
 			c.Eval(1)
 			c.Trans(1)
 			l.out[r.outcome]++
-			if r.fl != nil {
+			if r.fl != nil && report(r.fl.class) {
 				c.Violation(r.fl.class, fmt.Sprintf("input %x (%s): %s", in, origin(), r.fl.desc),
 					Case{Part: "arbitrary", Input: hex.EncodeToString(in), Origin: origin()})
 			}
 			if r.outcome == "ok-nonempty" {
 				l.accepts++
-				l.states[vlib.Hash("c", r.canon)] = struct{}{}
+				if deep {
+					l.states[vlib.Hash("c", r.canon)] = struct{}{}
+				}
 			}
 		}
 		maxLen := 2
@@ -228,14 +243,14 @@ func TestCheck(t *testing.T) {
 					in = []byte{byte((i - 257) >> 8), byte(i - 257)}
 				}
 				origin := func() string { return "short byte string" }
-				one(l, in, origin)
+				one(l, in, true, origin)
 				if len(in) == 2 && maxLen >= 3 {
 					for b := 0; b < 256; b++ {
-						one(l, []byte{in[0], in[1], byte(b)}, origin)
+						one(l, []byte{in[0], in[1], byte(b)}, true, origin)
 					}
 				}
 				if i%9973 == 3 {
-					c.Sample(map[string]any{"part": "arbitrary", "input_hex": hex.EncodeToString(in), "outcome": checkArbitrary(in, false).outcome})
+					c.Sample(map[string]any{"part": "arbitrary", "input_hex": hex.EncodeToString(in), "outcome": checkArbitrary(in, true, false).outcome})
 				}
 			})
 			scope["c_short_strings"] = fmt.Sprintf("every byte string of length <= %d (%d of %d two-byte prefixes)", maxLen, done, n)
@@ -265,7 +280,7 @@ func TestCheck(t *testing.T) {
 				enc := []byte(list[i])
 				name := encs[list[i]]
 				for k := 0; k < len(enc); k++ {
-					one(l, enc[:k], func() string { return fmt.Sprintf("encoding of edit %q truncated to %d of %d bytes", name, k, len(enc)) })
+					one(l, enc[:k], true, func() string { return fmt.Sprintf("encoding of edit %q truncated to %d of %d bytes", name, k, len(enc)) })
 				}
 				buf := make([]byte, len(enc))
 				for k := 0; k < len(enc); k++ {
@@ -275,7 +290,7 @@ func TestCheck(t *testing.T) {
 							continue
 						}
 						buf[k] = byte(b)
-						one(l, buf, func() string {
+						one(l, buf, false, func() string {
 							return fmt.Sprintf("encoding %x of edit %q with byte %d changed from %02x to %02x", enc, name, k, enc[k], b)
 						})
 					}
